@@ -222,6 +222,10 @@ def run(ctx):
             # the returned error is the `ok_or(..)` of this very read
             if sym.contains(r.ret, lambda x: x == res):
                 empty = True
+            # ... or the path matched this read's Option and took the None arm
+            for t, v, _ in r.preds:
+                if t[0] == 'discr' and sym.contains(t[1], lambda x: x == res) and sym.discr_variant(t, v) == 'None':
+                    empty = True
         if not empty:
             problems.append('an exit reports OutOfCompressedData without a failed read of the compressed backend on that path (e.g. from an up-front `maybe_exhausted()` test): chunks that are already in the head, or still in the backend, are refused')
         writes = [e for e in r.events if e['kind'] == 'write' and e['path'][:3] == (1, 'deref', ('f', 'heads'))]
